@@ -232,6 +232,28 @@ def check_roundtrip(env: Env, ty):
         return ("roundtrip:raises", f"{t!r}: {type(e).__name__}: {e}")
     if back != t or hash(back) != hash(t) or not sub(back) or not back._subtype(t):
         return (f"roundtrip:{diff_kind(env, t, back)}", f"{t!r} -> ONNX -> {back!r} (equal={back == t})")
+    # identity judged on the public content too (constructor, element type, shape), not only by `==`:
+    # an `==` that is too coarse must not hide a type that came back different
+    try:
+        same = env.enc(back) == env.enc(t)
+    except Exception:  # noqa: BLE001
+        same = True
+    if not same:
+        return (f"roundtrip:{diff_kind(env, t, back)}", f"{t!r} -> ONNX -> {back!r}: `==` holds but the two differ in content")
+    return None
+
+
+def check_equality(env: Env, a, b):
+    """Canonical representation: two types are equal (and equally hashed) exactly when they are the same
+    ONNX type - same nesting, element type and shape (dimension by dimension, names included)."""
+    ta, tb = env.mk(a), env.mk(b)
+    same = env.enc(ta) == env.enc(tb)
+    eq = bool(ta == tb)
+    if eq != same:
+        return (f"equality:{'distinct-types-equal' if eq else 'same-type-unequal'}:{aspect(a, b)}",
+                f"{ta!r} == {tb!r} is {eq}, but they are {'the same' if same else 'different'} ONNX types")
+    if same and hash(ta) != hash(tb):
+        return ("equality:equal-types-hash-differently", f"{ta!r} and {tb!r}")
     return None
 
 
@@ -646,6 +668,7 @@ CHECKS = {
     "spelling": lambda env, c: check_spelling_pair(env, c["s1"], c["s2"], None if c["shape"] is None else tuple(c["shape"])),
     "refusal": lambda env, c: check_refusal(env, c["name"], c["defined"]),
     "subtype": lambda env, c: check_subtype(env, c["a"], c["b"]),
+    "equality": lambda env, c: check_equality(env, c["a"], c["b"]),
     "broadcast": lambda env, c: check_broadcast(env, c["a"], c["b"], None, c.get("spell", "Shape"),
                                                 c.get("self_spell", "Shape"), c.get("method", "broadcast")),
     "broadcast_n": lambda env, c: check_broadcast_n(env, c["shapes"], c["spells"], c.get("method", "broadcast")),
@@ -907,6 +930,26 @@ def run(ck: core.Check):
             desc.append(None if leaf[0] == "any" else (w, uni.mask(codes[leaf[1]], leaf[2])))
         state["desc"] = desc
 
+    def facet_equality():
+        """`==` / `hash` over all ordered pairs of the bounded type domain vs sameness of the content."""
+        real_types = [env.mk(t) for t in types]
+        encs = [repr(env.enc(t)) for t in real_types]
+        hs = [hash(t) for t in real_types]
+        n_bad = 0
+        for i in range(n):
+            ti, ei = real_types[i], encs[i]
+            for j in range(n):
+                eq = ti == real_types[j]
+                if eq != (ei == encs[j]) or (eq and hs[i] != hs[j]):
+                    n_bad += 1
+                    if n_bad <= 20:
+                        bad = check_equality(env, types[i], types[j])
+                        if bad:
+                            ck.failure(bad[0], bad[1], {"check": "equality", "a": types[i], "b": types[j]})
+        ck.count(None, n * n)
+        ck.cov["equality_pairs"] = n * n
+
+    guard("type equality sweep", facet_equality)
     guard("_subtype sweep", facet_subtype)
     guard("common-value universe", facet_common_value)
 
@@ -1297,7 +1340,10 @@ def run(ck: core.Check):
         f"exhaustive: all shapes of rank <= {R} over dims {DIMS} + unknown rank ({m} shapes, all {m * m} pairs) for "
         f"Shape.__le__/broadcast; all {n * n} ordered pairs of {n} types (2 element types x those shapes, 6 nestings of "
         f"depth <= 2 over rank <= {RN}, Type() wildcards, alias spellings) for _subtype; every spelling x 5 shapes + nestings "
-        "for the ONNX round trip; every ONNX code x 4 shapes for _from_onnx; all concrete shape pairs for numpy's rule. "
+        "for the ONNX round trip; every ONNX code x 4 shapes for _from_onnx; all concrete shape pairs for numpy's rule; "
+        "all ordered pairs of the shapes of rank <= 2 x 9 spellings of the operand (Shape object built four ways, tuple / None, "
+        "Tensor.shape, argument.type.shape, '' for anonymous dims, list) x 3 spellings of self for Shape.broadcast and can_broadcast; "
+        "== / hash over all ordered pairs of the types; cast(to=...) for every accepted spelling. "
         "non-trivial = one row of a pairwise sweep / one spelling / one type; the inline call boundary is seeded-random"
     )
     ck.assumptions += [
